@@ -160,7 +160,10 @@ void set_owner(const void* m, int id) {
 
 }  // namespace
 
-bool in_task() { return g != nullptr && g->cur >= 0; }
+// Only the OS thread that runs the scheduler can be "in a task": a library that moved work to a helper
+// thread must see plain pthread behaviour there (and is flagged by the factory monitor).
+static thread_local bool tl_sim_thread = false;
+bool in_task() { return tl_sim_thread && g != nullptr && g->cur >= 0; }
 int cur_task() { return g ? g->cur : -1; }
 uint64_t global_seq() { return g ? g->seq : g_seq_outside; }
 uint64_t next_seq() { return g ? ++g->seq : ++g_seq_outside; }
@@ -187,6 +190,7 @@ void yield(YieldKind k) {
 SchedResult run_tasks(const std::vector<std::function<void()>>& bodies, const SchedConfig& cfg) {
   SchedResult res;
   Sched s;
+  tl_sim_thread = true;
   s.cfg = &cfg;
   s.res = &res;
 #if defined(SIM_TSAN)
